@@ -213,7 +213,24 @@ def harness_bin(name):
 
 
 def run_harness(name, args, timeout=600, env=None, input=None):
-    rc, out = sh([harness_bin(name)] + args, timeout=timeout, env=env, input=input)
+    """runs a harness binary; result objects are the JSON lines of its stdout.  stderr (tracing output of the
+    code under test, panics of detached tasks) is captured separately so that it can never split a result line."""
+    e = dict(os.environ)
+    e.update({"CARGO_NET_OFFLINE": "true"})
+    if env:
+        e.update(env)
+    try:
+        p = subprocess.run([harness_bin(name)] + args, env=e, input=input, stdout=subprocess.PIPE, stderr=subprocess.PIPE,
+                           timeout=timeout, text=True, errors="replace")
+        rc, out, err = p.returncode, p.stdout, p.stderr
+    except subprocess.TimeoutExpired as ex:
+        out = ex.stdout or ""
+        err = ex.stderr or ""
+        if isinstance(out, bytes):
+            out = out.decode("utf-8", "replace")
+        if isinstance(err, bytes):
+            err = err.decode("utf-8", "replace")
+        rc, err = 124, err + "\n[timeout]"
     objs = []
     for line in out.splitlines():
         line = line.strip()
@@ -222,7 +239,7 @@ def run_harness(name, args, timeout=600, env=None, input=None):
                 objs.append(json.loads(line))
             except json.JSONDecodeError:
                 pass
-    return rc, objs, out
+    return rc, objs, out[-2000:] + "\n--- stderr tail ---\n" + err[-3000:]
 
 
 def write_jsonl(path, objs):
@@ -277,6 +294,44 @@ class Corr:
 
     def count(self, key, n=1):
         self.dist[key] = self.dist.get(key, 0) + n
+
+    def absorb(self, o):
+        self.evaluations += o.evaluations
+        self.validated += o.validated
+        self.nontrivial |= o.nontrivial
+        self.samples += o.samples
+        for k, v in o.dist.items():
+            self.count(k, v)
+        self.disagreements += o.disagreements
+        self.failing += o.failing
+        self.errors += o.errors
+        self.extra.update(o.extra)
+
+
+def confirm_realtime(judge, cases, retries=2):
+    """Real-time scenarios: a disagreement or a monitor failure is reported only if it shows again when the scenario is
+    re-run (with low parallelism).  Code that breaks the property fails deterministically on its scenario; a scheduling
+    hiccup of the machine does not repeat.  Entries carry the scenario id in entry["case"]["id"]."""
+    c = judge(cases, 16)
+    for attempt in range(retries):
+        if c.errors:
+            break
+        bad = {e["case"]["id"] for e in c.disagreements + c.failing if isinstance(e.get("case"), dict) and "id" in e["case"]}
+        if not bad:
+            break
+        c2 = judge([cs for cs in cases if cs["id"] in bad], 4)
+        if c2.errors:
+            c.errors += c2.errors
+            break
+        still = {e["case"]["id"] for e in c2.disagreements + c2.failing if isinstance(e.get("case"), dict) and "id" in e["case"]}
+        gone = bad - still
+        if gone:
+            c.disagreements = [e for e in c.disagreements if not (isinstance(e.get("case"), dict) and e["case"].get("id") in gone)]
+            c.failing = [e for e in c.failing if not (isinstance(e.get("case"), dict) and e["case"].get("id") in gone)]
+            c.count("not-reproduced-on-rerun(dropped)", len(gone))
+        if not still:
+            break
+    return c
 
 
 class Prop:
